@@ -154,8 +154,11 @@ fn scenario(kind: usize, fillk: usize, out_fd: i32) -> i32 {
     let mut unread = prefilled;
     for burst in [1u64, 7, 1, 1000, 3] {
         wr(out_fd, &format!("BURST {}\n", burst));
-        for _ in 0..burst {
+        for i in 0..burst {
             let w0 = WAKES.load(Ordering::SeqCst);
+            // whatever errno the interrupted code left behind (an interrupted poll, a failed write of its own) is none of
+            // the handler's business
+            unsafe { *libc::__errno_location() = [libc::EINTR, 0, libc::EAGAIN, libc::EPIPE][(i % 4) as usize] };
             unsafe { libc::raise(sig) };
             let dw = WAKES.load(Ordering::SeqCst) - w0;
             if dw != 1 {
@@ -246,6 +249,32 @@ fn scenario(kind: usize, fillk: usize, out_fd: i32) -> i32 {
             bad("a rejected registration still wakes".into());
         }
     }
+    // ---- the reader goes away while the registration stays: the wake-up fails for good (EPIPE) and is simply given up
+    {
+        wr(out_fd, "READER-GONE a registered pipe whose read end is closed\n");
+        let mut fds = [0; 2];
+        unsafe { libc::pipe(fds.as_mut_ptr()) };
+        match signal_hook::low_level::pipe::register_raw(sig, fds[1]) {
+            Ok(id) => {
+                unsafe { libc::close(fds[0]) };
+                for _ in 0..3 {
+                    let w0 = WAKES.load(Ordering::SeqCst);
+                    unsafe { libc::raise(sig) };
+                    let dw = WAKES.load(Ordering::SeqCst) - w0;
+                    if dw != 1 {
+                        bad(format!("a delivery made {} wake attempts on a pipe without reader (expected exactly 1)", dw));
+                    }
+                }
+                signal_hook::low_level::unregister(id);
+            }
+            Err(e) => {
+                bad(format!("registration of a valid descriptor failed: {}", e));
+                unsafe {
+                    libc::close(fds[0]);
+                }
+            }
+        }
+    }
     let end_fds = crate::sig::open_fds();
     let expect: Vec<c_int> = baseline_fds.iter().cloned().filter(|f| *f != wfd && *f != rfd).collect();
     if end_fds != expect {
@@ -319,6 +348,7 @@ pub fn main(args: &[String]) -> i32 {
             let mut status = 0;
             let mut ended = false;
             let mut blocked_in = None;
+            let mut spinning: Option<u64> = None;
             loop {
                 let r = unsafe { libc::waitpid(pid, &mut status, libc::WNOHANG) };
                 if r == pid {
@@ -345,6 +375,15 @@ pub fn main(args: &[String]) -> i32 {
                         blocked_in = Some(last);
                         break;
                     }
+                    // burning CPU instead: the whole scenario needs a fraction of a second of CPU time
+                    let cpu_ticks: u64 = st.rsplit(')').next().map(|x| {
+                        let f: Vec<&str> = x.split_whitespace().collect();
+                        f.get(11).and_then(|v| v.parse::<u64>().ok()).unwrap_or(0) + f.get(12).and_then(|v| v.parse::<u64>().ok()).unwrap_or(0)
+                    }).unwrap_or(0);
+                    if cpu_ticks > 500 {
+                        spinning = Some(cpu_ticks);
+                        break;
+                    }
                     if el > 60_000 {
                         break;
                     }
@@ -364,7 +403,9 @@ pub fn main(args: &[String]) -> i32 {
                 let _ = f.read_to_string(&mut out);
             }
             n += 1;
-            if let Some(sc) = blocked_in {
+            if let Some(t) = spinning {
+                bad.push(("delivery-spins".into(), format!("{}: the child has burnt {} clock ticks of CPU and does not come back during {:?}: a delivery retries its wake-up for ever", label, t, out.lines().last())));
+            } else if let Some(sc) = blocked_in {
                 bad.push(("delivery-blocked-on-full-descriptor".into(), format!("{}: the child is blocked (stable) in syscall '{}' (1 = write, 44 = sendto) during {:?}", label, sc, out.lines().last())));
             } else if !ended {
                 inconclusive = Some(format!("{}: child neither ended nor blocked in write/sendto", label));
